@@ -409,6 +409,8 @@ def explore(ctx, n_wf, n_near, n_raw, n_esc, corpus_lines=()):
             else:
                 n = u = h = p
             out = '%d\t%s\t%s\t%s' % (1 if isu else 0, wire.enc(n), wire.enc(u), wire.enc(h)); ok = True; msg = ''
+            if isu and (n + '!' + u + '@' + h != p or '@' in h or '!' in u):
+                ok = False; msg = 'splitHostmask(%r) = %r does not re-join to the hostmask' % (p, (n, u, h))
         except AssertionError:
             return
         except Exception as e:
